@@ -1,7 +1,7 @@
 """Sidecar contracts for /repo/ural/fingerprint_url.py (C06)."""
 MODULE = {
     "file": "ural/fingerprint_url.py",
-    "consts": {"ISO_3166_1_COUNTRIES_ALPHA_2": ("Opaque", "Obj"), "LANG_QUERY_KEYS": ("Opaque", "Obj")},
+    "consts": {"ISO_3166_1_COUNTRIES_ALPHA_2": ("Opaque", "Obj"), "LANG_SUBDOMAINS": ("Opaque", "Obj"), "LANG_QUERY_KEYS": ("Opaque", "Obj")},
     "functions": {
         "strip_lang_subdomains_from_hostname": {
             "types": {"hostname": "Str", "stripped": "Str"}, "returns": "Str",
